@@ -299,6 +299,35 @@ def check_key_sources(ctx, alg, signer, victim):
                 ctx.violation("C01:refused-under-the-signers-key:%s:%s" % (how, lab), "a token was refused under the key that signed it", case)
 
 
+def check_key_set_sources(ctx, alg, signer, victim):
+    """A key SET as the key argument (KeySet object, {"keys": [...]} dict, list, JSON text): a token whose kid names no key of the
+    set, signed by a foreign key that it carries in its own jwk header, is never verified."""
+    from authlib.jose import JsonWebKey, KeySet
+    jws = JsonWebSignature()
+    pub = (lambda k: k if R.keys()[k]["kind"] == "oct" else k + ".pub")
+    jwk = R.material(pub(signer), "jwk")
+    vjwk = dict(R.material(pub(victim), "jwk"), kid="victim-key")
+    for hdr_kid in ("unknown-kid", None, "victim-key"):
+        header = {"alg": alg, "jwk": jwk}
+        if hdr_kid is not None:
+            header["kid"] = hdr_kid
+        token = bytes(jws.serialize_compact(header, b'{"sub":"forged"}', R.material(signer, "key")))
+        forms = [("jwks-dict", {"keys": [vjwk]}), ("jwks-dict-2", {"keys": [vjwk, dict(vjwk, kid="second")]}), ("keyset", KeySet([JsonWebKey.import_key(vjwk)])),
+                 ("jwks-json", json.dumps({"keys": [vjwk]})), ("jwks-empty", {"keys": []})]
+        for lab, keyarg in forms:
+            case = {"alg": alg, "signer": signer, "victim": victim, "key_set_form": lab, "header_kid": hdr_kid}
+            ctx.case(case, ("key-set-source", alg, lab, hdr_kid), "key-set-source:%s" % lab)
+            try:
+                JsonWebToken([alg]).decode(token, keyarg)
+                out = "ok"
+            except Exception as e:  # noqa: BLE001
+                out = err_class(e)
+            ctx.count("key-set-source:%s:%s" % (lab, out))
+            if out == "ok":
+                ctx.violation("C01:verified-under-the-tokens-own-key:jwt:%s" % lab,
+                              "a token signed by a key outside the caller's key set (and carried in its jwk header) was returned as verified", case)
+
+
 def check_jwt(ctx, alg, kid):
     """jwt.encode / jwt.decode on top of the compact form (claims are JSON)."""
     jwt = JsonWebToken(list(JsonWebSignature.ALGORITHMS_REGISTRY))
@@ -339,6 +368,7 @@ def run(ctx):
     ctx.oracles = oracles()
     for alg, signer, victim in (("HS256", "oct2", "oct1"), ("RS256", "rsa2", "rsa1"), ("PS384", "rsa2", "rsa1"), ("ES256", "p256b", "p256"), ("EdDSA", "ed25519b", "ed25519")):
         check_key_sources(ctx, alg, signer, victim)
+        check_key_set_sources(ctx, alg, signer, victim)
     rng = ctx.rng
     quick = ctx.tier == "quick"
     ctx.rule = ("15 registered algorithms x key forms (raw/PEM bytes, PEM text, JWK dict, Key object) x 5 payloads (empty, text, all 256 "
@@ -367,6 +397,8 @@ def run_case(ctx, case):
     ctx.oracles = oracles()
     if "key_source" in case:
         check_key_sources(ctx, case["alg"], case["signer"], case["victim"])
+    elif "key_set_form" in case:
+        check_key_set_sources(ctx, case["alg"], case["signer"], case["victim"])
     elif case.get("jwt"):
         check_jwt(ctx, case["alg"], case["key"])
     elif "algs" in case:
